@@ -5,6 +5,9 @@ package main
 import (
 	"fmt"
 	"go/types"
+	"os"
+	"runtime/debug"
+	"sort"
 
 	"golang.org/x/tools/go/ssa"
 )
@@ -57,14 +60,18 @@ type State struct {
 	next    *Term            // bump allocator: every live block id is < next
 	pc      []*Term
 	clos    map[string]*closureVal
-	held    map[string]bool
+	held    map[string]*heldLock
 	ghostOK bool
 	entry   *State // snapshot at function entry (for old())
 	acq     *State // snapshot right after the most recent lock acquisition (for acq())
+	lastRel map[string]*State // per lock: snapshot at its last release
 	path    []int  // block indices visited in the top frame (for naming / debugging)
 	// known facts to dedupe no-panic obligations: term strings known non-nil
 	nonnil map[string]bool
 	pcSet  map[string]bool
+	private map[string]*Term // blocks allocated here and not yet escaped
+	local   map[string]bool  // every block allocated by this invocation
+	clean   map[string]bool  // lock key -> nothing the owner's invariant can read was written since acquisition
 	qtag   map[string]string
 	loadNames map[string]*Term
 	epoch  int // generation of lazily named memory / map arrays (bumped by havocAll)
@@ -85,6 +92,18 @@ func (s *State) clone() *State {
 		ns.maps[k] = v
 	}
 	ns.pc = append(make([]*Term, 0, len(s.pc)+8), s.pc...)
+	ns.local = make(map[string]bool, len(s.local))
+	for k := range s.local {
+		ns.local[k] = true
+	}
+	ns.clean = make(map[string]bool, len(s.clean))
+	for k, v := range s.clean {
+		ns.clean[k] = v
+	}
+	ns.private = make(map[string]*Term, len(s.private))
+	for k, v := range s.private {
+		ns.private[k] = v
+	}
 	ns.qtag = make(map[string]string, len(s.qtag))
 	for k, v := range s.qtag {
 		ns.qtag[k] = v
@@ -101,7 +120,7 @@ func (s *State) clone() *State {
 	for k, v := range s.clos {
 		ns.clos[k] = v
 	}
-	ns.held = make(map[string]bool, len(s.held))
+	ns.held = make(map[string]*heldLock, len(s.held))
 	for k, v := range s.held {
 		ns.held[k] = v
 	}
@@ -110,6 +129,12 @@ func (s *State) clone() *State {
 		ns.nonnil[k] = v
 	}
 	ns.path = append([]int(nil), s.path...)
+	if s.lastRel != nil {
+		ns.lastRel = make(map[string]*State, len(s.lastRel))
+		for k, v := range s.lastRel {
+			ns.lastRel[k] = v
+		}
+	}
 	return ns
 }
 
@@ -124,7 +149,7 @@ func (s *State) snapshot() *State {
 	for k, v := range s.maps {
 		ns.maps[k] = v
 	}
-	ns.held = make(map[string]bool, len(s.held))
+	ns.held = make(map[string]*heldLock, len(s.held))
 	for k, v := range s.held {
 		ns.held[k] = v
 	}
@@ -275,6 +300,10 @@ func (s *State) assumeWF(v Value) {
 
 func (s *State) allocBlock() *Term {
 	b := s.define("blk", s.next)
+	if s.local == nil {
+		s.local = map[string]bool{}
+	}
+	s.local[b.String()] = true
 	s.assume(Gt(b, IntLit(0)))
 	s.next = Add(b, IntLit(1))
 	return b
@@ -321,6 +350,9 @@ func (s *State) nameLoad(t *Term) *Term {
 }
 
 func (s *State) storeAt(blk, off *Term, v Value) {
+	if !s.local[blk.String()] {
+		s.dirty()
+	}
 	lay := s.e.lay.Of(v.T)
 	if len(lay) != len(v.L) {
 		panic(fmt.Sprintf("storeAt: layout/value mismatch for %v: %d vs %d", v.T, len(lay), len(v.L)))
@@ -343,6 +375,9 @@ func (s *State) storeAt(blk, off *Term, v Value) {
 
 // havocBlock replaces the whole contents of a block (all kinds).
 func (s *State) havocBlock(blk *Term) {
+	if !s.local[blk.String()] {
+		s.dirty()
+	}
 	for _, k := range allKinds {
 		if k == KR {
 			continue
@@ -354,12 +389,58 @@ func (s *State) havocBlock(blk *Term) {
 
 // havocAll replaces all of memory and all maps.
 func (s *State) havocAll() {
+	s.dirty()
+	// blocks allocated by this invocation whose address never left it keep their contents
+	type keep struct {
+		blk  *Term
+		vals map[Kind]*Term
+	}
+	var keeps []keep
+	var names []string
+	for n := range s.private {
+		names = append(names, n)
+	}
+	sort.Strings(names)
+	for _, n := range names {
+		b := s.private[n]
+		k := keep{blk: b, vals: map[Kind]*Term{}}
+		for _, kd := range allKinds {
+			if m, ok := s.mem[kd]; ok {
+				k.vals[kd] = s.define("keep", Select(m, b))
+			}
+		}
+		keeps = append(keeps, k)
+	}
 	s.e.epochs++
 	s.epoch = s.e.epochs
 	s.mem = map[Kind]*Term{}
 	s.maps = map[string]*Term{}
 	s.bumpNext()
+	for _, k := range keeps {
+		for kd, val := range k.vals {
+			s.mem[kd] = s.define("M"+kd.String(), Store(s.memOf(kd), k.blk, val))
+		}
+	}
+	old := s.nonnil
 	s.nonnil = map[string]bool{}
+	for n := range s.private {
+		if old[n] {
+			s.nonnil[n] = true
+		}
+	}
+	s.loadNames = map[string]*Term{}
+}
+
+// escape marks every block referenced by v as reachable from outside this invocation.
+func (s *State) escape(v Value) {
+	if len(s.private) == 0 || v.cell != nil {
+		return
+	}
+	for _, l := range v.L {
+		if l.sort == SInt {
+			delete(s.private, l.String())
+		}
+	}
 }
 
 // bumpNext models allocation by a callee: next grows by an unknown amount.
@@ -401,4 +482,27 @@ func (s *State) allocTyped(t types.Type) *Term {
 	b := s.allocBlock()
 	s.assume(Eq(s.e.btype(b), s.e.allocTypeID(t)))
 	return b
+}
+
+type heldLock struct {
+	blk, off *Term
+}
+
+// heldTerm: the lock at (blk, off) is one of the locks held on this path.
+func (s *State) heldTerm(blk, off *Term) *Term {
+	var alts []*Term
+	for _, h := range s.held {
+		alts = append(alts, And(Eq(blk, h.blk), Eq(off, h.off)))
+	}
+	return Or(alts...)
+}
+
+// dirty: something that an invariant of a held lock's owner may read has (possibly) been written.
+func (s *State) dirty() {
+	if os.Getenv("GOVC_DIRTY") != "" && len(s.clean) > 0 {
+		fmt.Fprintf(os.Stderr, "dirty: %s\n", string(debug.Stack()))
+	}
+	for k := range s.clean {
+		s.clean[k] = false
+	}
 }
